@@ -311,6 +311,19 @@ func kRunPtrace(ctx context.Context, o *kOpts) (runner.Result, *kOut) {
 	return res, out
 }
 
+// kRunPtraceFiles is kRunPtrace with an explicit descriptor list (the caller collects the report).
+func kRunPtraceFiles(ctx context.Context, o *kOpts, files []uintptr) (runner.Result, *kOut) {
+	lim := o.limit
+	if lim.TimeLimit == 0 {
+		lim = bigLimit
+	}
+	r := &ptrace.Runner{
+		Args: append([]string{probePath}, o.script...), Env: []string{"PATH=/bin"}, WorkDir: o.workdir,
+		Files: files, RLimits: o.rlimits, Limit: lim, Seccomp: o.filter, Handler: o.handler, SyncFunc: o.syncFunc,
+	}
+	return r.Run(ctx), nil
+}
+
 func kRunUnshare(ctx context.Context, o *kOpts) (runner.Result, *kOut) {
 	w, out, err := kPipe()
 	if err != nil {
